@@ -641,11 +641,11 @@ def probe_instances(budget, max_solutions):
     az = ("x1", "<as>")
     neg_probes.append(("lrec", ("forall", az, S, None, ("not", ("count", az, "<b>", "3")))))
     for j, (gname, ast) in enumerate(neg_probes):
-        for free in (5, 10):
+        for free in ((5, 10) if gname == "rows" else (10,)):
             out.append({"idx": f"n{j}.{free}", "gname": gname, "ast": ast, "how": "concrete" if j % 2 else "direct",
                         "settings": {"free": free, "smt": free, "opt": True, "unique": True, "methods": 7,
                                      "start_symbol": None, "unsat": False},
-                        "seed": 3000 + j, "budget": budget * 3, "max_solutions": 30})
+                        "seed": 3000 + j, "budget": budget * 3, "max_solutions": 20})
     return out
 
 
@@ -885,8 +885,8 @@ def run(run):
         "created nodes, activate_unsat_support=True on conjunctions of a tree-existential with a universal/SMT "
         "conjunct (limits 2-3; also 25% of the generated instances, 70% of the generated exists-and-forall "
         "conjunctions), negated count under universal quantifiers on list-like grammars (targets 1-4, up to "
-        "30 solutions, 6 s). Each instance: random.seed(seed), "
-        "solve() called until 10 solutions / StopIteration / 2 s user-CPU. EVERY returned tree is checked in "
+        "20 solutions, 6 s). Each instance: random.seed(seed), "
+        "solve() called until 10 solutions / StopIteration / 1.5 s user-CPU (probes: 2-6 s, up to 20). EVERY returned tree is checked in "
         "Coq (sol_check: shape_ok, wf_treeb, closedb, root label, satb of the original constraint) and by "
         "spec_sem.py; every prefix of the solution sequence is thereby checked. non-trivial = the instance "
         "returned at least one tree and its constraint is not satisfied by every tree the fuzzer produces "
@@ -910,7 +910,8 @@ def run(run):
             j["idx"] = "known:" + e["key"]
             jobs.append(j)
     n_fixed = len(jobs)
-    jobs += [gen_instance(rng, i, budget, max_sol) for i in range(n_inst)]
+    # generated instances get 1.5 s (most of them are hopeless and only burn their budget); probes 2-6 s
+    jobs += [gen_instance(rng, i, budget * 0.75, max_sol) for i in range(n_inst)]
     t0 = time.time()
     results = run_jobs(jobs, nproc)
     run.cov["solver_wall_seconds"] = round(time.time() - t0, 1)
